@@ -685,6 +685,10 @@ func (sema *ExprSemanticsChecker) checkArrayDeref(n *ArrayDerefNode) ExprType {
 				found = true
 				break
 			}
+			if _, ok := t.(AnyType); ok {
+				found = true // The element may be an object. Its type is unknown
+				break
+			}
 		}
 		if !found {
 			sema.errorf(n, "object type %q cannot be filtered by object filtering `.*` since it has no object element", ty.String())
